@@ -119,6 +119,24 @@ pub fn exercise_loaded_hdr(rec: &mut Rec, hdr: &Multiboot2Header, opts: &HdrOpts
         rec.t.push("w.new", Val::Panic);
     }
 
+    // --- the same walk through nth() / count() (secondary iterator methods) ---
+    {
+        let n = items.len();
+        let mut ks = vec![0usize, 1, 2, n / 2, n.saturating_sub(1), n, n + 1];
+        ks.sort_unstable();
+        ks.dedup();
+        for k in ks {
+            let v = catch(|| hdr.iter().nth(k).map(|t| rec.ext(t)));
+            rec.t.push(format!("w.nth{k}"), match v { None => Val::Panic, Some(None) => Val::None, Some(Some(v)) => v });
+        }
+        let v = catch(|| {
+            let mut it = hdr.iter();
+            it.next();
+            it.count()
+        });
+        rec.t.push("w.count_after1", v.map_or(Val::Panic, |c| Val::U(c as u64)));
+    }
+
     for (i, tag) in items.iter().enumerate() {
         typed_hdr_tag(rec, &format!("t{i}"), tag, tag.header().typ() as u16 as u32, opts);
         dbg(rec, format!("w{i}.dbg"), *tag, opts.debug);
